@@ -85,6 +85,12 @@ class ObjStub:
         self.attrs = attrs
 
 
+class OneShot:
+    """a generator object (consumable once) holding the elements it would yield"""
+    def __init__(self, items, line):
+        self.items, self.line = items, line
+
+
 class ExtCall:
     """result of a call into an external (not analysed) module"""
     def __init__(self, name, args, kwargs=None):
@@ -656,7 +662,7 @@ class Interp:
                 return obj.length
             if a == "ndim":
                 return 1
-            if a == "copy":
+            if a in ("copy", "min", "max", "sum", "mean"):
                 return ("method", obj, a)
         if a == "ndim":
             if isinstance(obj, Vec):
@@ -700,6 +706,22 @@ class Interp:
             self.assign(g.target, x, e2, func, depth)
             out.append(self.eval(node.elt, e2, func, depth))
         return out
+
+    def e_GeneratorExp(self, node, env, func, depth):
+        # a generator object: the same elements as the list comprehension, but it can be consumed ONCE.
+        # Passed at once to a builtin (any / all / sum / list / tuple / sorted) it is just a sequence; kept in
+        # a name or an attribute it is one-shot state (OneShot), which the rules that meet it report.
+        it = self.eval(node.generators[0].iter, env, func, depth) if len(node.generators) == 1 else None
+        if isinstance(it, dict):
+            fake = ast.copy_location(ast.ListComp(elt=node.elt, generators=node.generators), node)
+            g = node.generators[0]
+            out = []
+            for x in list(it):
+                e2 = dict(env)
+                self.assign(g.target, x, e2, func, depth)
+                out.append(self.eval(node.elt, e2, func, depth))
+            return OneShot(out, node.lineno)
+        return OneShot(self.e_ListComp(ast.copy_location(ast.ListComp(elt=node.elt, generators=node.generators), node), env, func, depth), node.lineno)
 
     def e_IfExp(self, node, env, func, depth):
         c = self.eval(node.test, env, func, depth)
@@ -1052,6 +1074,18 @@ class Interp:
             _, obj, name = f
             if name == "copy":
                 return obj.copy() if isinstance(obj, SArr) else obj
+            if name in ("sum", "mean") and isinstance(obj, SArr) and not args and not kwargs and self.stn is not None:
+                cnt = getattr(self, "count_rf", None)
+                s_ = self.stn.summation(obj, cnt)
+                if name == "sum":
+                    return s_
+                if cnt is None:
+                    raise AnalysisError("%s:%d mean of an array of unknown length" % (func.qualname, ln))
+                return self.dom.div(s_, cnt)
+            if name in ("min", "max") and isinstance(obj, SArr) and not args and not kwargs:
+                # extremum over the cells: a value the analysis does not resolve (a fresh uninterpreted quantity)
+                self._nred = getattr(self, "_nred", 0) + 1
+                return self.dom.opaque("%s_over_cells" % name, [self.dom.const(self._nred)])
             if name == "astype" and len(args) == 1:
                 # value unchanged in real arithmetic; the conversion is recorded for the dtype rules
                 t = args[0]
@@ -1109,6 +1143,7 @@ class Interp:
         ln = node.lineno
         base = name.split(".")[-1] if not name.startswith("builtin:") else name[8:]
         if name.startswith("builtin:"):
+            args = [a.items if isinstance(a, OneShot) else a for a in args]       # consumed here, at once
             if base == "abs":
                 return self.unary("abs", args[0], ln)
             if base == "len":
